@@ -40,8 +40,9 @@ struct Shapes {
     }
 };
 
-// field names 'b','d','f',... leave gaps for absent-between lookups
-inline size_t parse_shape(const std::string &sh, size_t i, ref::Value &v) {
+// field names: scheme 0 = 'b','d','f',... (gaps for absent-between lookups); scheme 1 = "a","ab","abc",... (every name a
+// strict prefix of the next, so that the prefix/extension lookup candidates coincide with present names)
+inline size_t parse_shape(const std::string &sh, size_t i, ref::Value &v, int scheme = 0) {
     char ch = sh[i];
     if (ch == 'i') { v.k = ref::K_INT; v.i = 5; return i + 1; }
     if (ch == 'b') { v.k = ref::K_BOOL; v.b = true; return i + 1; }
@@ -51,8 +52,12 @@ inline size_t parse_shape(const std::string &sh, size_t i, ref::Value &v) {
     unsigned n = 0;
     while (sh[i] != '}' && sh[i] != ']') {
         ref::Value c;
-        i = parse_shape(sh, i, c);
-        if (obj) { c.has_name = true; c.name = ref::Bytes{(uint8_t)('b' + 2 * n)}; }
+        i = parse_shape(sh, i, c, scheme);
+        if (obj) {
+            c.has_name = true;
+            if (scheme == 0) c.name = ref::Bytes{(uint8_t)('b' + 2 * n)};
+            else { c.name.clear(); for (unsigned k = 0; k <= n; k++) c.name.push_back((uint8_t)('a' + k)); }
+        }
         n++;
         v.c.push_back(std::move(c));
     }
